@@ -1,2 +1,714 @@
+"""D_sym -- symmetry typing on the value graph (DESIGN 2.4; C09 R9.2, R9.3).
+
+R9.2  Galilean covariance: every value v gets a *shift weight* a(v) such that a
+boost by U maps v to v + a(v) U exactly.  Sums add weights, a product is
+affine only if one factor is invariant, non-linear functions and powers need
+invariant arguments, comparisons need equal weights on both sides, a root
+solve is invariant if its residual is.  Weights are normal forms (D_nf), e.g.
+a(x) = t, a(u) = 1, a(u - (x - xd0)/t) = 0.
+
+R9.3  Rigid invariance of burn times: values are typed Inv / Vec / Pt (and
+arrays of them); Pt - Pt -> Vec, dot/norm of Vec -> Inv, everything else that
+touches a Vec or Pt (component access, abs, comparison, ...) is a
+non-equivariant use.  The burn time must be Inv.
+"""
+import ast
+
+from ..model import AnalysisError
+from ..report import Finding
+from ..vg import Builder, Frame, walk
+from ..nf import NFEval, NAN, Mono, Sum, PW, Struct, leaves
+from .c05 import phi_leaves
+
+PROP = 'C09'
+UTILS = 'exactpack.solvers.riemann.utils'
+RIEMANN = 'exactpack.solvers.riemann.riemann:RiemannIGEOS'
+
+NONLINEAR = {'numpy.sqrt', 'math.sqrt', 'numpy.exp', 'numpy.log', 'numpy.abs', 'builtins.abs', 'numpy.sign',
+             'numpy.sin', 'numpy.cos', 'numpy.tan', 'numpy.arccos', 'numpy.arcsin', 'numpy.arctan', 'math.exp',
+             'math.log', 'numpy.square', 'numpy.log10'}
+SAME_WEIGHT = {'builtins.min', 'builtins.max', 'numpy.minimum', 'numpy.maximum', 'numpy.append', 'numpy.linspace',
+               'numpy.amin', 'numpy.amax', 'numpy.min', 'numpy.max'}
+PASS = {'numpy.array', 'numpy.asarray', 'builtins.float', 'numpy.copy', 'numpy.sort', 'numpy.flip', 'builtins.list',
+        'builtins.tuple'}
+
+
+class Violation:
+    def __init__(self, node, what):
+        self.node = node
+        self.what = what
+
+
+class ShiftEval:
+    def __init__(self, ev, seeds):
+        self.ev = ev                   # NFEval
+        self.seeds = seeds             # atom key ('param:ul', 'input:x', ...) -> NF weight
+        self.memo = {}
+        self.violations = []
+        self.top = 0
+        self.checked = 0
+
+    def zero(self):
+        return self.ev.num(0)
+
+    def is_zero(self, a):
+        return isinstance(a, Mono) and a.coef == 0
+
+    def eq(self, a, b):
+        if a is None or b is None:
+            return True
+        if isinstance(a, Struct) or isinstance(b, Struct):
+            if isinstance(a, Struct) and isinstance(b, Struct) and len(a.items) == len(b.items):
+                return all(self.eq(x, y) for x, y in zip(a.items, b.items))
+            s, o = (a, b) if isinstance(a, Struct) else (b, a)
+            return all(self.eq(x, o) for x in s.items)
+        return a.key() == b.key()
+
+    def viol(self, n, what):
+        self.violations.append(Violation(n, what))
+
+    def w(self, n):
+        if n is None:
+            return None
+        if n.nid in self.memo:
+            return self.memo[n.nid]
+        self.memo[n.nid] = None
+        r = self._w(n)
+        self.memo[n.nid] = r
+        return r
+
+    def _w(self, n):
+        ev = self.ev
+        k = n.kind
+        if k == 'const':
+            return self.zero()
+        if k == 'param':
+            return self.seeds.get('param:%s' % n.val, self.zero())
+        if k in ('input', 'hoarg'):
+            return self.seeds.get('input:%s' % n.val, self.zero())
+        if k in ('extfunc', 'index'):
+            return self.zero()
+        if k == 'binop':
+            a, b = self.w(n.args[0]), self.w(n.args[1])
+            op = n.val
+            if a is None or b is None:
+                self.top += 1
+                return None
+            if isinstance(a, Struct) or isinstance(b, Struct):
+                return self.struct_binop(n, a, b)
+            if op in ('+', '-'):
+                self.checked += 1
+                return ev.add(a, b, 1 if op == '+' else -1)
+            if op == '*':
+                self.checked += 1
+                if self.is_zero(a) and self.is_zero(b):
+                    return self.zero()
+                if self.is_zero(a):
+                    return ev.mul(ev.nf(n.args[0]), b)
+                if self.is_zero(b):
+                    return ev.mul(a, ev.nf(n.args[1]))
+                self.viol(n, 'product of two boost-dependent values is not affine in the boost velocity')
+                return None
+            if op == '/':
+                self.checked += 1
+                if not self.is_zero(b):
+                    self.viol(n, 'division by a boost-dependent value')
+                    return None
+                if self.is_zero(a):
+                    return self.zero()
+                return ev.mul(a, ev.power(ev.nf(n.args[1]), ev.S.F(-1)))
+            if op == '**':
+                self.checked += 1
+                if not self.is_zero(a) or not self.is_zero(b):
+                    self.viol(n, 'power of a boost-dependent value')
+                    return None
+                return self.zero()
+            self.top += 1
+            return None
+        if k == 'unop':
+            a = self.w(n.args[0])
+            if a is None:
+                return None
+            if n.val == '-':
+                return ev.mul(ev.num(-1), a) if not isinstance(a, Struct) else Struct([ev.mul(ev.num(-1), x) for x in a.items])
+            if n.val == '+':
+                return a
+            return self.zero()
+        if k == 'cmp':
+            a, b = self.w(n.args[0]), self.w(n.args[1])
+            if a is not None and b is not None:
+                self.checked += 1
+                if not self.eq(a, b):
+                    self.viol(n, 'comparison of values with different boost weights (%s vs %s)'
+                              % (self.show(a), self.show(b)))
+            return self.zero()
+        if k == 'bool':
+            for a in n.args:
+                self.w(a)
+            return self.zero()
+        if k == 'phi':
+            self.w(n.args[0])
+            a, b = self.w(n.args[1]), self.w(n.args[2])
+            if a is None:
+                return b
+            if b is None:
+                return a
+            if n.args[1].kind == 'undef':
+                return b
+            if n.args[2].kind == 'undef':
+                return a
+            self.checked += 1
+            if self.eq(a, b):
+                return a
+            if isinstance(a, Struct) or isinstance(b, Struct):
+                return None
+            return ev.pw(ev.ckey(n.args[0]), a, b, n.args[0])
+        if k in ('tuple', 'list'):
+            return Struct([self.w(a) if self.w(a) is not None else None for a in n.args]) \
+                if all(self.w(a) is not None for a in n.args) else None
+        if k == 'sub':
+            base = self.w(n.args[0])
+            idx = n.args[1]
+            if isinstance(base, Struct):
+                if idx.kind == 'const' and isinstance(idx.val, int) and -len(base.items) <= idx.val < len(base.items):
+                    return base.items[idx.val]
+                first = base.items[0] if base.items else None
+                if all(self.eq(first, x) for x in base.items):
+                    return first
+                return None
+            return base
+        if k == 'call':
+            return self.w_call(n)
+        if k in ('elem', 'arrayof'):
+            return self.w(n.args[0])
+        if k == 'attr' and n.val in ('T', 'shape', 'size'):
+            return self.w(n.args[0]) if n.val == 'T' else self.zero()
+        self.top += 1
+        return None
+
+    def struct_binop(self, n, a, b):
+        ev = self.ev
+        op = n.val
+        if op in ('+', '-'):
+            def f(x, y):
+                return ev.add(x, y, 1 if op == '+' else -1)
+            if isinstance(a, Struct) and isinstance(b, Struct):
+                if len(a.items) != len(b.items):
+                    return None
+                return Struct([f(x, y) for x, y in zip(a.items, b.items)])
+            if isinstance(a, Struct):
+                return Struct([f(x, b) for x in a.items])
+            return Struct([f(a, y) for y in b.items])
+        if op == '*':
+            s, o, on, sn = (a, b, n.args[1], n.args[0]) if isinstance(a, Struct) else (b, a, n.args[0], n.args[1])
+            if isinstance(o, Struct):
+                return None
+            if self.is_zero(o):
+                # invariant scalar times a vector of weighted values
+                return Struct([ev.mul(ev.nf(on), x) for x in s.items])
+            if all(self.is_zero(x) for x in s.items):
+                return None
+            self.viol(n, 'product of two boost-dependent values is not affine in the boost velocity')
+            return None
+        return None
+
+    def w_call(self, n):
+        ev = self.ev
+        name = n.val
+        ws = [self.w(a) for a in n.args]
+        if name == 'numpy.where' and len(ws) == 3:
+            a, b = ws[1], ws[2]
+            if a is None or b is None:
+                return a if b is None else b
+            self.checked += 1
+            if self.eq(a, b):
+                return a
+            return ev.pw(ev.ckey(n.args[0]), a, b, n.args[0])
+        if name in NONLINEAR:
+            if ws and ws[0] is not None:
+                self.checked += 1
+                a = ws[0]
+                bad = (not self.is_zero(a)) if not isinstance(a, Struct) else any(not self.is_zero(x) for x in a.items)
+                if bad:
+                    self.viol(n, 'non-linear function %s of a boost-dependent value (weight %s)'
+                              % (name.split('.')[-1], self.show(a)))
+                    return None
+            return self.zero()
+        if name in SAME_WEIGHT:
+            flat = []
+            for x in ws:
+                if isinstance(x, Struct):
+                    flat.extend(x.items)
+                else:
+                    flat.append(x)
+            flat = [x for x in flat if x is not None]
+            if name == 'numpy.linspace':
+                flat = flat[:2]
+            if not flat:
+                return None
+            self.checked += 1
+            if not all(self.eq(flat[0], x) for x in flat[1:]):
+                self.viol(n, 'arguments of %s have different boost weights (%s)'
+                          % (name.split('.')[-1], ', '.join(self.show(x) for x in flat)))
+                return None
+            return flat[0]
+        if name in PASS and ws:
+            return ws[0]
+        if n.ho is not None and n.ho.get('mode') == 'root1':
+            ph = n.ho['placeholders'][0]
+            self.memo[ph.nid] = self.zero()
+            r = self.w(n.ho['result']) if n.ho.get('result') is not None else None
+            if r is not None:
+                self.checked += 1
+                if not self.is_zero(r):
+                    self.viol(n, 'residual handed to %s is not boost invariant (weight %s): the root changes with '
+                                 'the frame' % (name.split('.')[-1], self.show(r)))
+                    return None
+            return self.zero()
+        if name in ('numpy.ones', 'numpy.zeros', 'builtins.len', 'numpy.ones_like', 'numpy.zeros_like'):
+            return self.zero()
+        self.top += 1
+        return None
+
+    def show(self, a):
+        if a is None:
+            return 'TOP'
+        if isinstance(a, Struct):
+            return '[' + ', '.join(self.show(x) for x in a.items) + ']'
+        k = a.key()
+        return k if len(k) < 80 else k[:77] + '...'
+
+
+# ---------------------------------------------------------------------------
+
+STATE = ['rl', 'pl', 'ul', 'gl', 'rr', 'pr', 'ur', 'gr']
+OTHER = ['A', 'B', 'R1', 'R2', 'r0', 'e0', 'problem', 'num_int_pts', 'num_x_pts', 'int_tol', 'xmin', 'xd0', 'xmax',
+         't', 'pmax', 'al', 'ar', 'ul_tilde']
+
+# function -> (argument names with weight 1 / weight t, required weight(s) of the result)
+GALILEAN_FUNCS = {
+    'shock': ({'u': '1'}, '1'),
+    'rarefaction': ({'u': '1'}, '1'),
+    'RCS_call': ({}, '0'), 'SCR_call': ({}, '0'), 'RCR_call': ({}, '0'), 'SCS_call': ({}, '0'),
+    'rho_star_shock': ({}, '0'), 'rho_star_rarefaction': ({}, '0'),
+    'rho_p_u_rarefaction': ({'u': '1', 'x': 't'}, ['0', '0', '1']),
+    'shock_velocity': ({'u': '1'}, '1'),
+    'u_SCN': ({}, '1'), 'u_NCS': ({}, '1'), 'u_NCR': ({}, '1'), 'u_RCN': ({}, '1'), 'u_a': ({}, '1'),
+    'u_RCVR': ({}, '1'),
+    'sie': ({}, '0'), 'sound_speed': ({}, '0'),
+}
+
+
+def weight_nf(ev, w, targ):
+    if w == '0':
+        return ev.num(0)
+    if w == '1':
+        return ev.num(1)
+    if w == 't':
+        return targ
+    raise AnalysisError('bad weight %r' % w)
+
+
+def galilean(model, res):
+    cls = model.get_class(RIEMANN)
+    mod = model.modules[UTILS]
+    n_funcs = 0
+    for fname, (argw, want) in GALILEAN_FUNCS.items():
+        fi = model.get_func('%s:%s' % (UTILS, fname))
+        b = Builder(model)
+        b.frame = Frame(None, mod, {}, None)
+        inst = b.symbolic_obj(cls, STATE + OTHER)
+        args = []
+        names = [a.arg for a in fi.node.args.args]
+        for nm in names:
+            if nm == 'inst':
+                args.append(inst)
+            else:
+                args.append(b.mk('input', nm))
+        ret = b.run_function(fi, args)
+        ev = NFEval(STATE + OTHER)
+        targ = ev.atom('input:t') if 't' in names else ev.atom('param:t')
+        seeds = {'param:ul': ev.num(1), 'param:ur': ev.num(1), 'param:ul_tilde': ev.num(1)}
+        for nm, w in argw.items():
+            if nm not in names:
+                raise AnalysisError('argument %s vanished from %s' % (nm, fname))
+            seeds['input:%s' % nm] = weight_nf(ev, w, targ)
+        sh = ShiftEval(ev, seeds)
+        got = sh.w(ret)
+        res.obligations += 1
+        res.evaluations += 1
+        n_funcs += 1
+        if sh.checked:
+            res.nontrivial += 1
+        ok = True
+        for v in sh.violations:
+            f2, q2, line = v.node.where
+            res.add(Finding(PROP, 'C09.galilean', f2, q2, '%s: %s' % (fname, v.what.split(' (')[0]),
+                            'Galilean covariance of %s: %s' % (fname, v.what), line=line, construct=v.node.src))
+            ok = False
+        wants = want if isinstance(want, list) else [want]
+        gots = got.items if isinstance(got, Struct) else [got]
+        if got is None or len(gots) != len(wants):
+            if ok and got is None:
+                raise AnalysisError('boost weight of the result of %s did not resolve' % fname)
+        else:
+            for i, (g, wv) in enumerate(zip(gots, wants)):
+                if g is None:
+                    raise AnalysisError('boost weight of result %d of %s did not resolve' % (i, fname))
+                for conds, leaf in leaves(g):
+                    if leaf is NAN:
+                        continue
+                    if leaf.key() != weight_nf(ev, wv, targ).key():
+                        res.add(Finding(PROP, 'C09.galilean', fi.module.relpath, fi.qualname,
+                                        '%s: result %d has boost weight %s, required %s' % (fname, i, leaf.key()[:60], wv),
+                                        'Galilean covariance: under a boost by U the %s result of %s must change by '
+                                        '%s*U but changes by (%s)*U' % (['', 'first', 'second', 'third'][i + 1] if len(wants) > 1 else '',
+                                                                        fname, wv, leaf.key()[:120]),
+                                        line=fi.node.lineno, construct='def %s' % fname))
+                        ok = False
+                        break
+        if ok:
+            res.discharged += 1
+            res.sample({'rule': 'C09.galilean', 'function': fname, 'result_weight': sh.show(got),
+                        'sites_checked': sh.checked}, limit=30)
+    # driver level
+    galilean_driver(model, res)
+    return n_funcs
+
+
+DRIVER_WEIGHTS = {'ux': '1', 'Vs': '1', 'Vsl': '1', 'Vsr': '1', 'Vregs': '1', 'Xregs': 't', 'px': '0',
+                  'rx1': '0', 'rx2': '0', 'ax1': '0', 'ax2': '0', 'ex1': '0', 'ex2': '0',
+                  'u_SCN_val': '1', 'u_NCR_val': '1', 'u_NCS_val': '1', 'u_RCN_val': '1', 'u_RCVR_val': '1'}
+
+
+def galilean_driver(model, res):
+    cls = model.get_class(RIEMANN)
+    fi = cls.methods.get('driver')
+    if fi is None:
+        raise AnalysisError('RiemannIGEOS.driver vanished')
+    b = Builder(model)
+    b.frame = Frame(None, cls.module, {}, None)
+    inst = b.symbolic_obj(cls, STATE + OTHER)
+    xu = b.mk('input', 'x_user')
+    from ..vg import Closure
+    clo = Closure(fi, fi.node, None, self_node=inst, cls=cls, module=cls.module)
+    b.call_closure(clo, [xu], {}, fi.node)
+    ev = NFEval(STATE + OTHER)
+    targ = ev.atom('param:t')
+    seeds = {'param:ul': ev.num(1), 'param:ur': ev.num(1), 'param:ul_tilde': ev.num(1), 'input:x_user': targ}
+    sh = ShiftEval(ev, seeds)
+    seen = set()
+    for func, tnode, vnode in b.assign_log:
+        if func is fi and tnode.id in DRIVER_WEIGHTS:
+            got = sh.w(vnode)
+            res.obligations += 1
+            res.evaluations += 1
+            seen.add(tnode.id)
+            want = weight_nf(ev, DRIVER_WEIGHTS[tnode.id], targ)
+            ok = True
+            if got is not None:
+                gots = got.items if isinstance(got, Struct) else [got]
+                for g in gots:
+                    if g is None:
+                        continue
+                    for conds, leaf in leaves(g):
+                        if leaf is not NAN and leaf.key() != want.key():
+                            ok = False
+                            res.add(Finding(PROP, 'C09.galilean', fi.module.relpath, fi.qualname,
+                                            'driver: %s has boost weight %s, required %s'
+                                            % (tnode.id, leaf.key()[:60], DRIVER_WEIGHTS[tnode.id]),
+                                            'Galilean covariance: in RiemannIGEOS.driver `%s` must change by %s*U under a '
+                                            'boost but changes by (%s)*U' % (tnode.id, DRIVER_WEIGHTS[tnode.id], leaf.key()[:120]),
+                                            line=tnode.lineno, construct=tnode.id))
+                            break
+                    if not ok:
+                        break
+            if ok:
+                res.discharged += 1
+    # classification tests: both sides of every comparison carry the same weight
+    for st in ast.walk(fi.node):
+        if isinstance(st, ast.If) and any(isinstance(s2, ast.Assign) and any(
+                isinstance(t, ast.Name) and t.id == 'soln_type' or
+                (isinstance(t, ast.Tuple) and any(isinstance(e, ast.Name) and e.id == 'soln_type' for e in t.elts))
+                for t in s2.targets) for s2 in st.body):
+            ids = {id(x) for x in ast.walk(st.test)}
+            for n in b.trace:
+                if n.kind == 'cmp' and n.origin and id(n.origin[1]) in ids:
+                    sh.w(n)
+    for v in sh.violations:
+        f2, q2, line = v.node.where
+        res.add(Finding(PROP, 'C09.galilean', f2, q2, 'driver: %s' % v.what.split(' (')[0],
+                        'Galilean covariance in RiemannIGEOS.driver: %s' % v.what, line=line, construct=v.node.src))
+    missing = {'ux', 'Vregs', 'Xregs', 'px'} - seen
+    if missing:
+        raise AnalysisError('driver locals %s vanished' % sorted(missing))
+    res.nontrivial += 1
+    res.extra['galilean_driver_sites'] = sh.checked
+
+
+# ---------------------------------------------------------------------------
+# R9.3 rotation / translation typing
+
+INV, VEC, PT, VECS, PTS = 'Inv', 'Vec', 'Pt', 'Vec[]', 'Pt[]'
+
+
+class RotEval:
+    def __init__(self, translation, attr_types):
+        self.translation = translation      # True: full affine group (Pt and Vec differ)
+        self.attr_types = attr_types        # param name -> type
+        self.memo = {}
+        self.violations = []
+        self.checked = 0
+        self.top = 0
+
+    def pt(self, arr=False):
+        if self.translation:
+            return PTS if arr else PT
+        return VECS if arr else VEC
+
+    def viol(self, n, what):
+        self.violations.append(Violation(n, what))
+
+    def t(self, n):
+        if n is None:
+            return None
+        if n.nid in self.memo:
+            return self.memo[n.nid]
+        self.memo[n.nid] = INV if n.kind == 'mu' else None
+        r = self._t(n)
+        self.memo[n.nid] = r
+        return r
+
+    def geom(self, x):
+        return x in (VEC, PT, VECS, PTS)
+
+    def _t(self, n):
+        k = n.kind
+        if k in ('const', 'extfunc', 'index'):
+            return INV
+        if k == 'param':
+            ty = self.attr_types.get(n.val, INV)
+            if ty == 'Pt':
+                return self.pt()
+            if ty == 'Pt[]':
+                return self.pt(True)
+            return ty
+        if k == 'input':
+            return self.pt(True) if n.val == 'r' else INV
+        if k == 'elem':
+            a = self.t(n.args[0])
+            return {VECS: VEC, PTS: PT}.get(a, a)
+        if k == 'sub':
+            a = self.t(n.args[0])
+            self.t(n.args[1])
+            if a in (VECS, PTS):
+                idx = n.args[1]
+                row = idx.kind in ('const', 'index') or (idx.kind == 'tuple' and len(idx.args) == 1)
+                if row:
+                    return VEC if a == VECS else PT
+                if idx.kind == 'slice':
+                    return a
+                self.checked += 1
+                self.viol(n, 'component access on an array of points/vectors')
+                return None
+            if a in (VEC, PT):
+                self.checked += 1
+                self.viol(n, 'component access on a %s (not invariant under rotation)' % a)
+                return None
+            return a
+        if k == 'binop':
+            a, b = self.t(n.args[0]), self.t(n.args[1])
+            op = n.val
+            if a is None or b is None:
+                self.top += 1
+                return None
+            if not self.geom(a) and not self.geom(b):
+                return INV
+            self.checked += 1
+            if op == '-':
+                if a in (PT, PTS) and b in (PT, PTS):
+                    return VECS if PTS in (a, b) else VEC
+                if a in (VEC, VECS) and b in (VEC, VECS):
+                    return VECS if VECS in (a, b) else VEC
+                if a in (PT, PTS) and b in (VEC, VECS):
+                    return a
+            if op == '+':
+                if a in (VEC, VECS) and b in (VEC, VECS):
+                    return VECS if VECS in (a, b) else VEC
+                if (a in (PT, PTS) and b in (VEC, VECS)) or (b in (PT, PTS) and a in (VEC, VECS)):
+                    return PTS if PTS in (a, b) else PT
+            if op in ('*',) and ((a == INV and b in (VEC, VECS)) or (b == INV and a in (VEC, VECS))):
+                return b if a == INV else a
+            if op == '/' and b == INV and a in (VEC, VECS):
+                return a
+            self.viol(n, 'operation %s %s %s is not equivariant' % (a, op, b))
+            return None
+        if k == 'unop':
+            a = self.t(n.args[0])
+            if n.val == '-' and a in (VEC, VECS):
+                return a
+            if self.geom(a):
+                self.checked += 1
+                self.viol(n, 'operation %s on a %s' % (n.val, a))
+                return None
+            return a
+        if k in ('cmp', 'bool'):
+            for x in n.args:
+                a = self.t(x)
+                if self.geom(a):
+                    self.checked += 1
+                    self.viol(n, 'comparison involving a %s' % a)
+            return INV
+        if k == 'phi':
+            self.t(n.args[0])
+            a, b = self.t(n.args[1]), self.t(n.args[2])
+            if a is None or n.args[1].kind == 'undef':
+                return b
+            if b is None or n.args[2].kind == 'undef':
+                return a
+            if a != b:
+                self.checked += 1
+                self.viol(n, 'branches of different symmetry type (%s / %s)' % (a, b))
+                return None
+            return a
+        if k == 'mu':
+            a = self.t(n.args[0])
+            self.memo[n.nid] = a
+            if n.args[1] is not None and n.args[1] is not n:
+                b = self.t(n.args[1])
+                if a is not None and b is not None and a != b:
+                    self.viol(n, 'loop-carried value changes symmetry type (%s / %s)' % (a, b))
+            return a
+        if k == 'store':
+            a = self.t(n.args[0])
+            self.t(n.args[1])
+            v = self.t(n.args[2])
+            if self.geom(v) and a == INV:
+                self.checked += 1
+                self.viol(n, 'a %s is stored into an array of invariants' % v)
+                return None
+            return a if a is not None else v
+        if k == 'call':
+            name = n.val
+            ts = [self.t(a) for a in n.args]
+            for kw in n.kw.values():
+                self.t(kw)
+            if name in ('numpy.dot', 'numpy.inner', 'numpy.vdot') and len(ts) == 2:
+                self.checked += 1
+                if ts[0] == VEC and ts[1] == VEC:
+                    return INV
+                if not self.geom(ts[0]) and not self.geom(ts[1]):
+                    return INV
+                self.viol(n, 'dot(%s, %s) is not invariant under the symmetry group' % (ts[0], ts[1]))
+                return None
+            if name in ('numpy.linalg.norm',) and ts:
+                self.checked += 1
+                if ts[0] == VEC:
+                    return INV
+                if ts[0] == VECS and 'axis' in n.kw:
+                    return INV
+                if not self.geom(ts[0]):
+                    return INV
+                self.viol(n, 'norm(%s) is not invariant under the symmetry group' % ts[0])
+                return None
+            if name in ('numpy.array', 'numpy.asarray', 'numpy.copy') and ts:
+                return ts[0]
+            if name in ('numpy.zeros', 'numpy.empty', 'numpy.ones', 'builtins.len', 'builtins.range'):
+                return INV
+            if any(self.geom(x) for x in ts):
+                self.checked += 1
+                self.viol(n, '%s applied to a %s is not equivariant' % (name.split('.')[-1],
+                                                                       [x for x in ts if self.geom(x)][0]))
+                return None
+            if any(x is None for x in ts):
+                self.top += 1
+                return None
+            return INV
+        if k in ('tuple', 'list'):
+            ts = [self.t(a) for a in n.args]
+            if any(self.geom(x) for x in ts):
+                return None
+            return INV
+        if k == 'attr':
+            a = self.t(n.args[0])
+            if n.val in ('shape', 'size', 'ndim'):
+                return INV
+            if self.geom(a):
+                return a if n.val in ('T',) else None
+            return a
+        if k == 'mcall':
+            a = self.t(n.args[0])
+            for x in n.args[1:]:
+                self.t(x)
+            if self.geom(a):
+                self.checked += 1
+                self.viol(n, 'method %s() on a %s is not equivariant' % (n.val, a))
+                return None
+            return a
+        self.top += 1
+        return None
+
+
+ROT_SPEC = {
+    'exactpack.solvers.kenamond.kenamond1:Kenamond1': {'translation': True, 'attrs': {'x_d': 'Pt'}},
+    'exactpack.solvers.kenamond.kenamond2:Kenamond2': {'translation': False, 'attrs': {'dets': 'Vec[]'}},
+    'exactpack.solvers.kenamond.kenamond3:Kenamond3': {'translation': False, 'attrs': {'x_d': 'Vec'}},
+    'exactpack.solvers.dsd.cylexpansion:CylindricalExpansion': {'translation': False, 'attrs': {}},
+}
+
+
+def rotations(model, res):
+    for cname, opts in ROT_SPEC.items():
+        cls = model.get_class(cname)
+        b = Builder(model)
+        objn, ret = b.run_solver(cls)
+        # attributes typed by the spec are read from the constructed object: type the heap values
+        rt = RotEval(opts['translation'], opts['attrs'])
+        h = b.heap.get(objn.val.oid, {})
+        for nm, ty in opts['attrs'].items():
+            if nm not in (model.parameters_keys(cls) or []):
+                raise AnalysisError('attribute %s is no longer a parameter of %s' % (nm, cname))
+            v = h.get(nm)
+            if v is not None:
+                for leaf in phi_leaves(v):
+                    rt.memo[leaf.nid] = {'Pt': rt.pt(), 'Pt[]': rt.pt(True)}.get(ty, ty)
+                rt.memo[v.nid] = {'Pt': rt.pt(), 'Pt[]': rt.pt(True)}.get(ty, ty)
+        found = 0
+        for sol in phi_leaves(ret):
+            if not (sol.kind == 'call' and sol.val == 'exactpack.base.ExactSolution'):
+                continue
+            data = sol.args[0]
+            names = sol.args[1] if len(sol.args) > 1 else sol.kw.get('names')
+            for a, d in zip(names.args, data.args):
+                if a.val == 'burntime':
+                    found += 1
+                    res.obligations += 1
+                    res.evaluations += 1
+                    ty = rt.t(d)
+                    runm = cls.find_method('_run')
+                    if ty is None and not rt.violations:
+                        raise AnalysisError('symmetry type of burntime in %s did not resolve' % cname)
+                    if ty is not None and ty != INV:
+                        res.add(Finding(PROP, 'C09.equivariance', runm.module.relpath, runm.qualname,
+                                        '%s: burntime has type %s' % (cls.name, ty),
+                                        '%s: the burn time is not an invariant (%s)' % (cls.name, ty),
+                                        line=runm.node.lineno, construct='burntime'))
+                    elif not rt.violations:
+                        res.discharged += 1
+        if not found:
+            raise AnalysisError('no burntime field found in %s' % cname)
+        for v in rt.violations:
+            f2, q2, line = v.node.where
+            res.add(Finding(PROP, 'C09.equivariance', f2, q2, '%s: %s' % (cls.name, v.what),
+                            '%s: the burn time uses coordinates in a way that is not invariant under %s: %s'
+                            % (cls.name, 'rotations, reflections and translations' if opts['translation'] else
+                               'rotations/reflections about the symmetry axis', v.what), line=line, construct=v.node.src))
+        res.nontrivial += 1
+        res.analysed.append(cname + ' (symmetry types, %d sites)' % rt.checked)
+        res.sample({'rule': 'C09.equivariance', 'class': cname, 'sites_checked': rt.checked, 'unresolved': rt.top}, limit=30)
+
+
 def check(model, res, tier):
-    res.notes.append('symmetry typing (R9.2, R9.3) not yet built')
+    n = galilean(model, res)
+    rotations(model, res)
+    res.extra['galilean_functions'] = n
